@@ -267,9 +267,11 @@ impl StorageEngine {
             StoredValue::new(value)
         };
         
-        // Track expiration if needed
+        // Track expiration if needed; overwriting without a TTL removes the old one
         if let Some(expires_at) = stored_value.metadata.expires_at {
             shard_guard.expiring_keys.insert(key.clone(), expires_at);
+        } else {
+            shard_guard.expiring_keys.remove(&key);
         }
         
         // CRITICAL FIX: Mark as modified BEFORE data change to fix WATCH race condition
@@ -2503,11 +2505,9 @@ impl StorageEngine {
                     if !expired_keys.is_empty() {
                         let mut shard_guard = shard.write().unwrap();
                         for key in expired_keys {
-                            if let Some(stored_value) = shard_guard.data.remove(&key) {
-                                shard_guard.expiring_keys.remove(&key);
-                                
-                                shard_guard.mark_modified(&key);
-                                
+                            // The index is only a hint: the key may have been overwritten without
+                            // a TTL, persisted, renamed or re-created since it was indexed
+                            if let Some(stored_value) = shard_guard.remove_if_expired(&key, now) {
                                 // Update memory usage
                                 let memory_size = engine.calculate_value_size(&key, &stored_value.value);
                                 engine.memory_manager.remove_memory(memory_size);
@@ -2545,6 +2545,28 @@ impl DatabaseShard {
     /// Mark specific key as modified
     fn mark_modified(&self, key: &[u8]) {
         self.watch_tracker.mark_key_modified(key);
+    }
+    
+    /// Remove `key` if, and only if, the deadline stored with its value has passed at `now`.
+    /// Otherwise the expiry index is brought back in step with the value (a stale entry is
+    /// dropped or corrected) and the key is left alone.
+    fn remove_if_expired(&mut self, key: &[u8], now: Instant) -> Option<StoredValue> {
+        let deadline = self.data.get(key).and_then(|stored_value| stored_value.metadata.expires_at);
+        match deadline {
+            Some(expires_at) if expires_at <= now => {
+                self.expiring_keys.remove(key);
+                self.mark_modified(key);
+                self.data.remove(key)
+            }
+            Some(expires_at) => {
+                self.expiring_keys.insert(key.to_vec(), expires_at);
+                None
+            }
+            None => {
+                self.expiring_keys.remove(key);
+                None
+            }
+        }
     }
     
     /// Get current modification counter for shard
